@@ -26,6 +26,7 @@ import (
 	"google.golang.org/protobuf/reflect/protoreflect"
 	"larking.io/larking"
 
+	"verif/internal/backend"
 	"verif/internal/mon"
 	"verif/internal/svc"
 	"verif/internal/vschema"
@@ -216,6 +217,11 @@ func (h c13impl) Stream(md protoreflect.MethodDescriptor, ss grpc.ServerStream) 
 				return err
 			}
 			kept = append(kept, in)
+			if id, _, _ := chunkFields(in); strings.HasPrefix(id, "fail-") && len(kept) == 2 {
+				// scripted back-end failure in the middle of the stream,
+				// while the client may still be sending
+				return status.Error(codes.Aborted, "scripted failure "+id)
+			}
 			yield()
 		}
 		// verify only after everything was received: exposes buffers that
@@ -353,6 +359,11 @@ type c13env struct {
 	srv *wire.Server
 	cc  *grpc.ClientConn
 	m   *c13mon
+	// proxy lane: a second mux that reaches the same handlers through
+	// RegisterConn to a real back-end
+	pstd *svc.Std
+	pmux *larking.Mux
+	pcc  *grpc.ClientConn
 }
 
 func slowBody(b []byte, lr *rand.Rand) io.Reader {
@@ -572,6 +583,37 @@ var lanes = []lane{
 		}
 		return ""
 	}},
+	{"http/json-stream+gzip", func(e *c13env, id string, size int, lr *rand.Rand) string {
+		// streaming request body behind Content-Encoding: gzip: the stream
+		// codec keeps reading the pooled decompressor up to and past its EOF
+		k := 1 + lr.Intn(4)
+		var body []byte
+		for i := 0; i < k; i++ {
+			b, _ := protojson.Marshal(mkChunk(id, int32(i), prf(fmt.Sprintf("%s/%d", id, i), size/k)))
+			body = append(body, b...)
+		}
+		z := wire.Gzip(body)
+		resp, bad := serveChecked(e, wire.NewRequest("POST", "/v1/cs", "", http.Header{"Content-Type": {"application/json"}, "Content-Encoding": {"gzip"}}, slowBody(z, lr), -1))
+		if bad != "" {
+			return bad
+		}
+		if resp.Code != 200 {
+			return fmt.Sprintf("status %d: %.200s", resp.Code, resp.Body)
+		}
+		body2, bad := respBody(resp)
+		if bad != "" {
+			return bad
+		}
+		out := vschema.NewMsg(vschema.Msg("vf.Chunk"))
+		if err := protojson.Unmarshal(body2, out); err != nil {
+			return "reply not JSON: " + err.Error()
+		}
+		gid, gseq, _ := chunkFields(out)
+		if gid != id || int(gseq) != k {
+			return fmt.Sprintf("client-stream summary id=%s n=%d, want id=%s n=%d", gid, gseq, id, k)
+		}
+		return ""
+	}},
 	{"httpbody/unary-upload", func(e *c13env, id string, size int, lr *rand.Rand) string {
 		data := prf(id, size)
 		resp, bad := serveChecked(e, wire.NewRequest("POST", "/v1/uploadu/"+id, "", http.Header{"Content-Type": {"application/x-verif"}, "Accept": {"application/json"}}, slowBody(data, lr), int64(len(data))))
@@ -689,11 +731,118 @@ var lanes = []lane{
 	}},
 }
 
+func bidiOver(cc *grpc.ClientConn, full string, id string, size int, lr *rand.Rand, mode string) string {
+	ctx, cancel := context.WithTimeout(context.Background(), 30*time.Second)
+	defer cancel()
+	st, err := cc.NewStream(ctx, &grpc.StreamDesc{ClientStreams: true, ServerStreams: true}, full)
+	if err != nil {
+		return "grpc-go error: " + err.Error()
+	}
+	k := 2 + lr.Intn(4)
+	for i := 0; i < k; i++ {
+		if err := st.SendMsg(mkChunk(id, int32(i), prf(fmt.Sprintf("%s/%d", id, i), size/k))); err != nil {
+			if mode == "backend-fails" {
+				break // the back-end is allowed to end the stream first
+			}
+			return "grpc-go send error: " + err.Error()
+		}
+		if mode == "client-aborts" && i == k/2 {
+			cancel() // abort in the middle of the stream, no half-close
+			err := st.RecvMsg(vschema.NewMsg(vschema.Msg("vf.Chunk")))
+			if err == nil {
+				return "a reply arrived on a stream the handler cannot have finished"
+			}
+			return ""
+		}
+	}
+	st.CloseSend()
+	if mode == "backend-fails" {
+		for {
+			err := st.RecvMsg(vschema.NewMsg(vschema.Msg("vf.Chunk")))
+			if err == nil {
+				continue
+			}
+			if ctx.Err() != nil {
+				return "WEDGED"
+			}
+			if status.Code(err) != codes.Aborted || !strings.Contains(status.Convert(err).Message(), id) {
+				return fmt.Sprintf("scripted back-end failure for %s surfaced as %v", id, err)
+			}
+			return ""
+		}
+	}
+	for i := 0; i < k; i++ {
+		out := vschema.NewMsg(vschema.Msg("vf.Chunk"))
+		if err := st.RecvMsg(out); err != nil {
+			if ctx.Err() != nil {
+				return "WEDGED"
+			}
+			return fmt.Sprintf("grpc-go recv %d/%d: %v", i, k, err)
+		}
+		gid, gseq, gdata := chunkFields(out)
+		if gid != id || int(gseq) != i || !bytes.Equal(gdata, prf(fmt.Sprintf("%s/%d", id, i), size/k)) {
+			return fmt.Sprintf("echo %d is not a function of the request: got id=%s seq=%d len=%d", i, gid, gseq, len(gdata))
+		}
+	}
+	if err := st.RecvMsg(vschema.NewMsg(vschema.Msg("vf.Chunk"))); err != io.EOF {
+		return fmt.Sprintf("stream did not end cleanly: %v", err)
+	}
+	return ""
+}
+
+var proxyLanes = []lane{
+	{"proxy/grpc-unary", func(e *c13env, id string, size int, lr *rand.Rand) string {
+		ctx, cancel := context.WithTimeout(context.Background(), 30*time.Second)
+		defer cancel()
+		out := vschema.NewMsg(vschema.Msg("vf.Chunk"))
+		if err := e.pcc.Invoke(ctx, e.pstd.Full("Echo"), mkChunk(id, 6, prf(id+"/6", size)), out); err != nil {
+			if ctx.Err() != nil {
+				return "WEDGED"
+			}
+			return "grpc-go error: " + err.Error()
+		}
+		gid, gseq, gdata := chunkFields(out)
+		if gid != id || gseq != 6 || !bytes.Equal(gdata, prf(id+"/6", size)) {
+			return fmt.Sprintf("proxied echo is not a function of the request: got id=%s seq=%d len=%d", gid, gseq, len(gdata))
+		}
+		return ""
+	}},
+	{"proxy/http-json", func(e *c13env, id string, size int, lr *rand.Rand) string {
+		if size > 100000 {
+			size = 100000
+		}
+		b, _ := protojson.Marshal(mkChunk(id, 8, prf(id+"/8", size)))
+		resp := wire.Serve(e.pmux, wire.NewRequest("POST", "/p1/echo", "", http.Header{"Content-Type": {"application/json"}}, slowBody(b, lr), int64(len(b))))
+		if resp.Wedged {
+			return "WEDGED"
+		}
+		if resp.Panic != nil {
+			return "PANIC " + resp.Panic.Key() + ": " + resp.Panic.Value
+		}
+		if resp.Code != 200 {
+			return fmt.Sprintf("status %d: %.200s", resp.Code, resp.Body)
+		}
+		return checkEchoJSON(resp.Body, id, 8, size)
+	}},
+	{"proxy/grpc-bidi", func(e *c13env, id string, size int, lr *rand.Rand) string {
+		return bidiOver(e.pcc, e.pstd.Full("Bidi"), id, size, lr, "")
+	}},
+	{"proxy/grpc-bidi-client-aborts", func(e *c13env, id string, size int, lr *rand.Rand) string {
+		return bidiOver(e.pcc, e.pstd.Full("Bidi"), id, size, lr, "client-aborts")
+	}},
+	{"proxy/grpc-bidi-backend-fails", func(e *c13env, id string, size int, lr *rand.Rand) string {
+		return bidiOver(e.pcc, e.pstd.Full("Bidi"), "fail-"+id, size, lr, "backend-fails")
+	}},
+	{"socket/grpc-bidi-client-aborts", func(e *c13env, id string, size int, lr *rand.Rand) string {
+		return bidiOver(e.cc, e.std.Full("Bidi"), id, size, lr, "client-aborts")
+	}},
+}
+
 var c13sizes = []int{0, 1, 4, 5, 63, 64, 65, 127, 128, 129, 1000, 1023, 1024, 1025, 4096, 10000, 65535, 65536, 100000, 262144}
 
 // RunC13 is the request-isolation check (built with -race).
 func RunC13(r *mon.Run) {
-	r.Rule = "32-128 concurrent clients, each issuing self-describing requests (payload = PRF(request id, length); sizes 0 B-256 KiB around the pooling thresholds) over HTTP JSON / protobuf / gzip request bodies, in-process gRPC identity / gzip, gRPC-web, collect-then-echo bidi streams, JSON client streams, HttpBody unary / streamed uploads (RecvMsg and AsHTTPBodyReader) and downloads (unary, chunked, AsHTTPBodyWriter), plus grpc-go unary / bidi over a real h2c socket; request bodies are delivered by slow fragmenting readers and the codecs / compressor are wrapped by yielding CodecOption / CompressorOption shims, i.e. goroutines are descheduled while pooled buffers are held. Oracles: handlers verify the PRF on every message (collecting handlers re-verify after the whole stream was received), clients verify that each reply is a function of their own request; the Go race detector watches the whole run. distinct = (lane, size class); peak in-flight requests and pooled-buffer reuse events are counted"
+	r.Rule = "32-128 concurrent clients, each issuing self-describing requests (payload = PRF(request id, length); sizes 0 B-256 KiB around the pooling thresholds) over HTTP JSON / protobuf / gzip request bodies, in-process gRPC identity / gzip, gRPC-web, collect-then-echo bidi streams, JSON client streams, HttpBody unary / streamed uploads (RecvMsg and AsHTTPBodyReader) and downloads (unary, chunked, AsHTTPBodyWriter), plus grpc-go unary / bidi over a real h2c socket, and the same handlers reached through RegisterConn to a real back-end (proxied unary, HTTP JSON, bidi, bidi aborted by the client mid-stream, bidi failed by the back-end mid-stream, i.e. the proxy's pump goroutines with either side failing first); request bodies are delivered by slow fragmenting readers and the codecs / compressor are wrapped by yielding CodecOption / CompressorOption shims, i.e. goroutines are descheduled while pooled buffers are held. Oracles: handlers verify the PRF on every message (collecting handlers re-verify after the whole stream was received), clients verify that each reply is a function of their own request; the Go race detector watches the whole run. distinct = (lane, size class); peak in-flight requests and pooled-buffer reuse events are counted"
 	r.Floor = 20
 	std, err := svc.BuildStd("vf.std", "vf/std13.proto", "/v1")
 	if err != nil {
@@ -730,6 +879,52 @@ func RunC13(r *mon.Run) {
 	}
 	defer cc.Close()
 	env := &c13env{std: std, mux: mux, srv: srv, cc: cc, m: m}
+	allLanes := append([]lane(nil), lanes...)
+	if pstd, err := svc.BuildStd("vf.stdp", "vf/std13p.proto", "/p1"); err != nil {
+		r.Inconclusive("harness: " + err.Error())
+		return
+	} else {
+		be, err := backend.Start("p", true, backend.Svc{SD: pstd.SD, Impl: impl})
+		if err != nil {
+			r.Inconclusive("harness: backend: " + err.Error())
+			return
+		}
+		defer be.Close()
+		pmux, err := larking.NewMux(
+			larking.CodecOption("application/json", yCodec{larking.CodecJSON{}, m}),
+			larking.CodecOption("application/protobuf", yCodec{larking.CodecProto{}, m}),
+		)
+		if err != nil {
+			r.Inconclusive("harness: " + err.Error())
+			return
+		}
+		rctx, rcancel := context.WithTimeout(context.Background(), 20*time.Second)
+		err = pmux.RegisterConn(rctx, be.CC)
+		rcancel()
+		if err != nil {
+			r.Inconclusive("harness: RegisterConn: " + err.Error())
+			return
+		}
+		psrv, err := wire.StartLarking(pmux, nil)
+		if err != nil {
+			r.Inconclusive("harness: " + err.Error())
+			return
+		}
+		defer psrv.Close()
+		pcc, err := wire.Dial(psrv.Addr, grpc.WithDefaultCallOptions(grpc.MaxCallRecvMsgSize(1<<26), grpc.MaxCallSendMsgSize(1<<26)))
+		if err != nil {
+			r.Inconclusive("harness: " + err.Error())
+			return
+		}
+		defer pcc.Close()
+		env.pstd, env.pmux, env.pcc = pstd, pmux, pcc
+		allLanes = append(allLanes, proxyLanes...)
+		defer func() {
+			if l := psrv.ErrLog(); strings.Contains(l, "panic serving") {
+				viol("proxy-socket:panic-serving", "http server logged a panic: "+firstLines(l, 6), nil)
+			}
+		}()
+	}
 
 	rng := r.Rand("c13")
 	total := r.Pick(16000, 600000)
@@ -746,7 +941,7 @@ func RunC13(r *mon.Run) {
 				defer wg.Done()
 				lr := rand.New(rand.NewSource(seed))
 				for i := 0; i < per/clients; i++ {
-					ln := lanes[lr.Intn(len(lanes))]
+					ln := allLanes[lr.Intn(len(allLanes))]
 					size := c13sizes[lr.Intn(len(c13sizes))]
 					if lr.Intn(4) == 0 {
 						size = lr.Intn(3000)
@@ -790,7 +985,7 @@ func RunC13(r *mon.Run) {
 	raceReports(r)
 	r.Sample(map[string]any{"lane": "http/json", "request": "POST /v1/echo {id:q17, seq:7, data:PRF(q17/7, 1024)} body delivered in 1-97 byte reads", "check": "handler: data==PRF(id/seq,len); client: echo==request"})
 	r.Sample(map[string]any{"lane": "httpbody/stream-upload", "request": "POST /v1/upload/r-q99 raw PRF(r-q99, 65536) via AsHTTPBodyReader", "check": "handler: bytes==PRF(name,len); client: summary {tag,n}"})
-	r.Assume("proxy pump goroutines with injected back-end / client failures are exercised by the C10 engine, which is also built with -race")
+	r.Assume("fault injection on proxied streams is limited to client aborts (context cancel without half-close) and scripted back-end failures after the second message")
 	if atomic.LoadInt64(&m.peak) < 8 {
 		r.Inconclusive("fewer than 8 requests were ever in flight together")
 	}
